@@ -50,11 +50,14 @@ def gen_case(rng, i):
     if i % 17 == 5:
         obs = "image"
     calls = [{"total": rng.randint(1, 22), "reset": rng.random() < 0.5} for _ in range(rng.choice([1, 2, 2]))]
-    return {"id": i, "algo": algo, "n_envs": n_envs, "tf": tf, "obs": obs,
+    her = i % 11 == 7
+    if her:
+        obs = "goal"
+    return {"id": i, "her": her, "sde_freq": rng.choice([-1, 1, 2, 3]), "algo": algo, "n_envs": n_envs, "tf": tf, "obs": obs,
             "act": "discrete" if algo == "DQN" else rng.choice(["box", "box_asym", "box_asym"]),
             "noise": None if algo == "DQN" else rng.choice([None, "normal", "normal", "vec"]),
             "sde": algo == "SAC" and rng.random() < 0.3, "sde_warmup": rng.random() < 0.5,
-            "learning_starts": rng.choice([0, 4, 9, 1000]), "vecnorm": rng.random() < 0.15 and obs in ("box1", "box2"),
+            "learning_starts": 1000 if her else rng.choice([0, 4, 9, 1000]), "vecnorm": rng.random() < 0.15 and obs in ("box1", "box2"),
             "calls": calls, "seed": rng.randint(0, 10**6),
             "scripts": [se.gen_script(rng, max_len=5, tag_base=1000 * e, tag_cap=250 if obs == "image" else se.MAXTAG - 1, p_both=0.2, p_trunc=0.4) for e in range(n_envs)]}
 
@@ -81,7 +84,15 @@ def run_impl(case):
     img = (36, 36, 3)
     obs_space = {"box1": None, "box2": None, "image": spaces.Box(0, 255, img, dtype=np.uint8),
                  "dictc": spaces.Dict({"a": spaces.Box(-M, M, (2,), dtype=np.float32), "b": spaces.Box(-M, M, (1, 3), dtype=np.float32)}),
-                 "disc": spaces.Discrete(4096)}[case["obs"]]
+                 "goal": None, "disc": spaces.Discrete(4096)}[case["obs"]]
+
+    def collapse(t):
+        """goal observations decode to {observation, achieved_goal, desired_goal}: one tag when all three agree"""
+        if isinstance(t, dict):
+            vals = set(t.values())
+            return vals.pop() if len(vals) == 1 else "mixed-goal:" + json.dumps(t, sort_keys=True)
+        return t
+
 
     class LoggedEnv(se.ScriptedEnv):
         def __init__(self, *a, **k):
@@ -90,12 +101,12 @@ def run_impl(case):
 
         def reset(self, **k):
             o, i = super().reset(**k)
-            self.gt.append(["reset", se.decode(self.observation_space, o)])
+            self.gt.append(["reset", collapse(se.decode(self.observation_space, o))])
             return o, i
 
         def step(self, action):
             o, r, te, tr, i = super().step(action)
-            self.gt.append(["step", se.decode(self.observation_space, o), float(r), bool(te), bool(tr), np.asarray(action, dtype=np.float64).reshape(-1).tolist()])
+            self.gt.append(["step", collapse(se.decode(self.observation_space, o)), float(r), bool(te), bool(tr), np.asarray(action, dtype=np.float64).reshape(-1).tolist(), int(i["tag"])])
             return o, r, te, tr, i
 
     def mk(e):
@@ -115,18 +126,18 @@ def run_impl(case):
 
         def __call__(self):
             v = self.rs.choice([0.3, 0.3, 1.5, 4.0]) * self.rs.randn(adim)
-            NOISE_LOG.append(("call", v.astype(np.float64).tolist()))
+            NOISE_LOG.append(("call", v.astype(np.float64).tolist(), id(self)))
             return v
 
         def reset(self):
-            NOISE_LOG.append(("reset",))
+            NOISE_LOG.append(("reset", None, id(self)))
 
     noise = None
     if case["noise"] == "normal":
         noise = RecNoise(case["seed"])
     elif case["noise"] == "vec":
         noise = VectorizedActionNoise(RecNoise(case["seed"]), ne)
-    policy = {"dictc": "MultiInputPolicy", "image": "CnnPolicy"}.get(case["obs"], "MlpPolicy")
+    policy = {"dictc": "MultiInputPolicy", "goal": "MultiInputPolicy", "image": "CnnPolicy"}.get(case["obs"], "MlpPolicy")
     pk = dict(net_arch=[8])
     if case["obs"] == "image":
         pk["features_extractor_kwargs"] = dict(features_dim=8)
@@ -135,7 +146,11 @@ def run_impl(case):
     if case["algo"] != "DQN":
         kw["action_noise"] = noise
     if case["algo"] == "SAC" and case["sde"]:
-        kw.update(use_sde=True, use_sde_at_warmup=case["sde_warmup"], sde_sample_freq=2)
+        kw.update(use_sde=True, use_sde_at_warmup=case["sde_warmup"], sde_sample_freq=case.get("sde_freq", 2))
+    if case.get("her"):
+        from stable_baselines3 import HerReplayBuffer
+
+        kw.update(replay_buffer_class=HerReplayBuffer, replay_buffer_kwargs=dict(copy_info_dict=True, n_sampled_goal=2))
     model = getattr(sb3, case["algo"])(policy, venv, **kw)
     dspace = model.get_env().observation_space   # images arrive channel-first (VecTransposeImage)
     steps = []   # per _sample_action call: {"u":..., "noise": [...], "action":..., "buffer_action":...}
@@ -169,7 +184,7 @@ def run_impl(case):
                 batch = np.rint(np.asarray(batch, dtype=np.float64))
                 if not np.allclose(batch, np.asarray(batch), atol=0):
                     pass
-            return se.decode_batch(dspace, batch, ne)
+            return [collapse(t) for t in se.decode_batch(dspace, batch, ne)]
         except se.MixedObservation as ex:
             return [f"mixed:{ex}"] * ne
 
@@ -192,7 +207,7 @@ def run_impl(case):
         return out
 
     def add(obs, next_obs, action, reward, done, infos):
-        adds.append({"vn": vn_info(next_obs, done) if case["vecnorm"] else {},"obs": tags(obs), "next": tags(next_obs), "action": np.array(action, dtype=np.float64).reshape(ne, -1).tolist(),
+        adds.append({"vn": vn_info(next_obs, done) if case["vecnorm"] else {}, "info_tags": [int(i.get("tag", -1)) for i in infos],"obs": tags(obs), "next": tags(next_obs), "action": np.array(action, dtype=np.float64).reshape(ne, -1).tolist(),
                      "reward": np.array(reward, dtype=np.float64).reshape(-1).tolist(), "done": [bool(d) for d in np.asarray(done).reshape(-1)],
                      "timeout": [bool(i.get("TimeLimit.truncated", False)) for i in infos],
                      "raw_err": max(raw_err(obs), raw_err(next_obs)) if case["vecnorm"] else 0.0, "call": len(call_info)})
@@ -201,10 +216,38 @@ def run_impl(case):
     rb.add = add
     model._sample_action = sample_action
     model.policy.scale_action = scale_action
+    from stable_baselines3.common.callbacks import BaseCallback
+
+    rollout_starts, sde_resets, in_train = [], [], [False]
+
+    class Marks(BaseCallback):
+        def _on_step(self):
+            return True
+
+        def _on_rollout_start(self):
+            rollout_starts.append(len(steps))
+
+    if getattr(model, "use_sde", False):
+        o_rn, o_train = model.actor.reset_noise, model.train
+
+        def reset_noise(*a, **k):
+            if not in_train[0]:
+                sde_resets.append(len(steps))
+            return o_rn(*a, **k)
+
+        def train(*a, **k):
+            in_train[0] = True
+            try:
+                return o_train(*a, **k)
+            finally:
+                in_train[0] = False
+
+        model.actor.reset_noise = reset_noise
+        model.train = train
     call_info = []
     for c in case["calls"]:
-        call_info.append({"steps_before": len(steps)})
-        model.learn(total_timesteps=c["total"], reset_num_timesteps=c["reset"])
+        call_info.append({"steps_before": len(steps), "noise_log_before": len(NOISE_LOG)})
+        model.learn(total_timesteps=c["total"], reset_num_timesteps=c["reset"], callback=Marks())
         call_info[-1].update(steps_after=len(steps), nt_end=int(model.num_timesteps))
     # buffer arrays after learn()
     n = len(adds)
@@ -220,8 +263,21 @@ def run_impl(case):
         buf = {"pos": int(rb.pos), "obs": obs_rows, "next": nxt_rows, "action": rb.actions[:n].astype(np.float64).reshape(n, ne, -1).tolist(),
                "reward": rb.rewards[:n].astype(np.float64).tolist(), "done": (rb.dones[:n] > 0.5).tolist(), "timeout": (rb.timeouts[:n] > 0.5).tolist()}
     sp = {"low": np.asarray(aspace.low, dtype=np.float64).reshape(-1).tolist(), "high": np.asarray(aspace.high, dtype=np.float64).reshape(-1).tolist()} if isinstance(aspace, spaces.Box) else {}
+    # per-env noise events in order: "c" = sample drawn, "r" = reset
+    an = getattr(model, "action_noise", None)
+    subs = list(an.noises) if isinstance(an, VectorizedActionNoise) else ([an] if an is not None else [])
+    idmap = {id(x): j for j, x in enumerate(subs)}
+    noise_events = [[] for _ in subs]
+    marks = [c["noise_log_before"] for c in call_info]
+    for pos, x in enumerate(NOISE_LOG):
+        if x[2] in idmap:
+            noise_events[idmap[x[2]]].append("c" if x[0] == "call" else "r")
+    her_infos = None
+    if case.get("her"):
+        her_infos = [[int(rb.infos[i][e].get("tag", -1)) for e in range(ne)] for i in range(min(n, rb.buffer_size))]
     return {"steps": steps, "adds": adds, "calls": call_info, "gt": [base.envs[e].gt for e in range(ne)], "space": sp, "buffer": buf,
-            "noise_resets": sum(1 for x in NOISE_LOG if x[0] == "reset")}
+            "noise_events": ["".join(ev) for ev in noise_events], "rollout_starts": rollout_starts, "sde_resets": sde_resets,
+            "use_sde": bool(getattr(model, "use_sde", False)), "her_infos": her_infos}
 
 
 def _worker(case):
@@ -294,6 +350,43 @@ def oracle(case, impl):
                         probs.append(("oracle-env-action-out-of-bounds", f"{where}: env received {s['action']} outside [{lo},{hi}]"))
                 elif [float(x) for x in ad["action"][e]] != [float(x) for x in s["action"]]:
                     probs.append(("oracle-env-action", f"{where}: stored discrete action {ad['action'][e]} != received {s['action']}"))
+    # action noise: drawn once per step and env, reset for every env when learn() starts and for env e right after its episode ends
+    if impl.get("noise_events") and lo is not None and case.get("noise"):
+        for e, got in enumerate(impl["noise_events"]):
+            want = ""
+            for info in impl["calls"]:
+                want += "r"
+                for g in range(info["steps_before"], info["steps_after"]):
+                    envs_done = [gt[x][g]["done"] for x in range(ne) if g < len(gt[x])]
+                    mine = gt[e][g]["done"] if len(impl["noise_events"]) == ne and g < len(gt[e]) else any(envs_done)
+                    want += "c" + ("r" if mine else "")
+            import re as _re
+
+            got, want = _re.sub("r+", "r", got), _re.sub("r+", "r", want)   # a reset right after a reset changes nothing
+            if got != want:
+                k = next((q for q in range(min(len(got), len(want))) if got[q] != want[q]), min(len(got), len(want)))
+                probs.append(("oracle-noise-reset", f"action noise of env {e}: draw/reset sequence differs from 'reset at learn() start, one draw per step, reset after the env's "
+                                                    f"episode end' at event {k}: got ...{got[max(0, k - 6):k + 6]} expected ...{want[max(0, k - 6):k + 6]}"))
+    # gSDE: reset_noise before the loop of every collect_rollouts and at the step indices that are multiples of sde_sample_freq
+    if impl.get("use_sde"):
+        starts = impl["rollout_starts"] + [len(steps)]
+        f = case.get("sde_freq", 2)
+        for r in range(len(starts) - 1):
+            k = starts[r + 1] - starts[r]
+            got = [p - starts[r] for p in impl["sde_resets"] if starts[r] <= p < starts[r + 1] or (p == starts[r + 1] and False)]
+            # the call before the loop of rollout r+1 is logged at position starts[r+1]: it belongs to the next rollout
+            want = [0] + [j for j in range(k) if f > 0 and j % f == 0]
+            if r == len(starts) - 2:
+                got = [p - starts[r] for p in impl["sde_resets"] if starts[r] <= p]
+            if got != want:
+                probs.append(("oracle-sde-resample-cadence", f"rollout {r} ({k} steps, sde_sample_freq {f}): reset_noise at step indices {got}, expected {want}"))
+                break
+    if impl.get("her_infos") is not None:
+        for g, row in enumerate(impl["her_infos"]):
+            for e in range(ne):
+                if g < len(gt[e]) and row[e] != gt[e][g]["info"]:
+                    probs.append(("oracle-her-info", f"HerReplayBuffer.infos[{g}][{e}] carries info tag {row[e]}, the env's step {g} had {gt[e][g]['info']}"))
+                    break
     b = impl["buffer"]
     if b is not None:
         if b["pos"] != len(adds):
@@ -339,12 +432,25 @@ def model_exprs(case, impl):
             calls.append(f"mkOC {coq_Z(c['total'])} {coq_bool(c['reset'])} {coq_bool(c['reset'] or ci == 0)} {coq_list(orcs)}")
             impls.append(coq_list(im))
         exprs.append(f"check_off (1 # 100000)%Q (1 # 100000)%Q {ak} {se.coq_script(case['scripts'][e])} {coq_Z(ne)} ({tf}) {coq_list(calls)} {coq_list(impls)}")
+    if impl.get("use_sde"):
+        starts = impl["rollout_starts"] + [len(impl["steps"])]
+        ks = [starts[r + 1] - starts[r] for r in range(len(starts) - 1)]
+        exprs.append(f"map (sde_calls true {coq_Z(case.get('sde_freq', 2))}) {coq_list(ks, common.coq_nat)}")
     return exprs
 
 
 def compare(case, impl, vals):
     probs = []
     ne = case["n_envs"]
+    if impl.get("use_sde"):
+        starts = impl["rollout_starts"] + [len(impl["steps"])]
+        got = []
+        for r in range(len(starts) - 1):
+            last = r == len(starts) - 2
+            got.append([p - starts[r] for p in impl["sde_resets"] if starts[r] <= p and (last or p < starts[r + 1])])
+        if got != vals[ne]:
+            r = next((q for q in range(min(len(got), len(vals[ne]))) if got[q] != vals[ne][q]), 0)
+            probs.append(("sde-resample-positions", f"rollout {r}: impl reset_noise positions {got[r] if r < len(got) else None}, model {vals[ne][r] if r < len(vals[ne]) else None}"))
     for e in range(ne):
         if len(vals[e]) != len(impl["calls"]):
             probs.append(("call-count", f"env {e}: model {len(vals[e])} calls"))
